@@ -9,7 +9,7 @@ From Coq Require Import String.
 From Coq Require Import PrimFloat.
 From Coq Require Import Reals.
 From Flocq Require Import Core.
-From PV Require Import Lib.Common Model.C15_Bv Proofs.C15_Bv Proofs.C15_Round Gen.C15_Kernel Proofs.C15_Kernel.
+From PV Require Import Lib.Common Model.C15_Bv Proofs.C15_Bv Proofs.C15_Round Gen.C15_Kernel Proofs.C15_Kernel Proofs.C15_Laws.
 Local Open Scope Q_scope.
 
 (** unscale(from_numpy(raw)) = raw for every trait column, every location/scale the run-time check accepts
@@ -296,6 +296,38 @@ Example C15_kernel_hyps_satisfiable :
   nanvar [Some 0; Some 2; Some 2; Some 0] = Some 1 /\ 0 <= 1 /\ 1 * 1 == 1 /\ fn_scale 1 == 1 /\ fn_scale 0 == 1
   /\ nanvar [Some 5; Some 5] = Some 0 /\ 0 < 2 /\ ~ 2 == 0.
 Proof. repeat split; try (vm_compute; reflexivity); discriminate. Qed.
+
+(** * Operations that do not re-standardise (reorder_taxa, sort_taxa, group_taxa, copies: the rows of the stored matrix are
+    selected / permuted, location and scale are kept): un-scaling commutes with every taxa selection and deletion, so every retained
+    taxon keeps its raw value — for every index list, every location and scale (also missing ones) *)
+Theorem C15_reorder_keeps_raw : forall (c : tcol) (ix : list Z) (ob : idx),
+  take_l (col_unscale c) ix = omap (fun d => col_unscale (mkcol d (cloc c) (csc c))) (take_l (cdat c) ix)
+  /\ delete_any (col_unscale c) ob = omap (fun d => col_unscale (mkcol d (cloc c) (csc c))) (delete_any (cdat c) ob).
+Proof. intros c ix ob. exact (conj (unscale_commutes_take c ix) (unscale_commutes_delete c ob)). Qed.
+Print Assumptions C15_reorder_keeps_raw.
+
+(** covariance under a change of unit and origin of the raw values (x -> a x + b, a <> 0; e.g. values scaled by 2^-40 or 2^20):
+    the stored standardised column is the same when location and scale are transformed accordingly, and un-scaling with the
+    transformed parameters yields the transformed raw values *)
+Theorem C15_standardise_affine_covariant : forall (raw : list oq) (c : tcol) (l s a b : Q), ~ s == 0 -> ~ a == 0 ->
+  coleq (cdat (col_from_numpy (map (omapf (fun x => a * x + b)) raw) (Some (a * l + b)) (Some (a * s)))) (cdat (col_from_numpy raw (Some l) (Some s)))
+  /\ (cloc c = Some l -> csc c = Some s ->
+      coleq (col_unscale (mkcol (cdat c) (Some (a * l + b)) (Some (a * s)))) (map (omapf (fun x => a * x + b)) (col_unscale c))).
+Proof. intros raw c l s a b Hs Ha. split; [now apply standardise_affine | now apply unscale_affine]. Qed.
+Print Assumptions C15_standardise_affine_covariant.
+
+(** sessions: a history is compositional — the matrix, the acceptance of the given parameters and the raw-level specification after
+    ops1 ++ ops2 are what ops2 makes of the state ops1 reached: a result depends on the state at the call, never on an earlier call *)
+Theorem C15_history_compositional :
+  (forall ops1 ops2 b, run b (ops1 ++ ops2) = run (run b ops1) ops2)
+  /\ (forall ops1 ops2 b, run_ok b (ops1 ++ ops2) = run_ok b ops1 && run_ok (run b ops1) ops2)
+  /\ (forall ops1 ops2 r, run_spec r (ops1 ++ ops2) = run_spec (run_spec r ops1) ops2).
+Proof. exact (conj run_app (conj run_ok_app run_spec_app)). Qed.
+Print Assumptions C15_history_compositional.
+
+Example C15_laws_hyps_satisfiable : ~ 2 == 0 /\ ~ (1 # 1099511627776) == 0
+  /\ take_l (col_unscale (mkcol [Some 1; None; Some (-1)] (Some 5) (Some 2))) [2%Z; 0%Z; (-2)%Z] = Some [Some 3; Some 7; None].
+Proof. repeat split; try discriminate. Qed.
 
 (** the numpy calls of the copy-on-manipulation routines and what is handed on: within one routine the values and both label arrays
     go through the same numpy function with the same index object and no further keyword (no [mode]); select/delete work on
